@@ -445,7 +445,7 @@ class C19(Prop):
                                              f"call) reproduces it on the real class", case={"class": cr.cls.__name__, "variant": cr.variant}))
                 model_bad[cr.name] = v["bad_plans"]
             # histories
-            n_hist = ctx.scale(5, 40)
+            n_hist = ctx.scale(5, 150)
             fixed = [["open", "isopen", "open", "close", "isopen", "close", "open", "close"],
                      ["close", "isopen", "open", "open", "close", "close"]]
 
@@ -455,7 +455,7 @@ class C19(Prop):
                     return ["open", ctx.rng.randint(1, n_calls + 1), ctx.rng.choice(D.ALL_FAULTS)]
                 return ctx.rng.choice(["open", "close", "isopen", "open", "close"])
             for h in range(n_hist):
-                ops = fixed[h] if h < len(fixed) else [gen_op() for _ in range(ctx.rng.randint(3, 12))]
+                ops = fixed[h] if h < len(fixed) else [gen_op() for _ in range(ctx.rng.randint(3, ctx.scale(12, 20)))]
                 try:
                     clause = self._history(cr, ops, lines, impl, meta, with_model)
                 except Exception as e:
